@@ -186,7 +186,11 @@ func (aq *Ackqueue) Acked() []AckMsg {
 	aq.mu.Lock()
 	defer aq.mu.Unlock()
 
-	aq.ackdone = aq.ackdone[0:0]
+	// The caller goes through the result after the lock is released, and the
+	// queues of a session can be in use by more than one connection (a client
+	// that reconnected before its previous connection was noticed to be gone):
+	// hand out a list of its own, not the one the next call fills again.
+	aq.ackdone = nil
 
 	for len(aq.ping) > 0 && aq.ping[0].State == message.PINGRESP {
 		aq.ackdone = append(aq.ackdone, aq.ping[0])
